@@ -16,7 +16,9 @@ def run(tier, seed, replay=None):
     def extra(ck, cases):
         if replay is None or replay.get('case', {}).get('obs') == 'named':
             CC.named_stream(ck, 'contain')
-        if replay is not None and replay.get('case', {}).get('obs') == 'named':
+        if replay is None or replay.get('case', {}).get('obs') == 'gclass':
+            CC.gclass_stream(ck)
+        if replay is not None and replay.get('case', {}).get('obs') in ('named', 'gclass'):
             cases.clear()
     return CC.run('C08', tier, seed, replay, PROPS, judge, extra_streams=extra,
                   rule_extra='; zoo: every public name of typing / collections.abc, bare and subscripted, non-types, strings, TypeVars, '
